@@ -15,6 +15,44 @@ CLAIMED = {
     },
 }
 
+CLAIMED.update({
+    "C12": {
+        "engine": "simpool",
+        "technique": "deterministic simulation: fit_circuit under simulated pool schedules, injected failing fits, timeouts and stalled workers; winner reference model over single-combination runs; invariant monitors on every outcome",
+        "text": "Seeded workloads (family, generating parameters, perturbed start, fixed subsets, limit boxes incl. boxes that must bite, lmfit constraints, method/weight lists) are fitted under seeded worker counts, completion orders, failing method/weight combinations (F4), timeouts and stalls; every outcome is judged by a small executable winner model (each combination also run alone through the public API) and by invariant monitors (bounds, fixed, constraints, parameter table vs returned circuit, inputs untouched); noise-free 'auto'/'auto' workloads must recover the generating values.",
+        "design_ref": "DESIGN.md 4 (C12)",
+        "note": "single-combination references share fit tasks with the multi-combination call through the sample-checked task cache; recovery thresholds calibrated on the unchanged tree; NaN pseudo chi-squared workloads excluded from the winner clause and counted",
+    },
+    "C08": {
+        "engine": "simpool",
+        "technique": "deterministic simulation: result-consistency monitors on every simulated run of every analysis entry point, with garbage-on-masked-points and ascending-input faults and shared-memory argument passing, differential against the clean serial reference",
+        "text": "For every analysis entry point (3 KK entry points x 7 tests, Z-HIT, DRT tr-nnls/lm/bht/mrq-fit, fit_circuit) with masked data, each simulated run (worker count, schedule, pickled vs shared argument passing) evaluates the four identities on every result object in the return value, checks that data set and circuit are unmodified, and compares the result with the clean serial reference when arbitrary garbage is written onto the masked points and/or the input is given in ascending order.",
+        "design_ref": "DESIGN.md 4 (C08)",
+        "note": "identity tolerances 1e-9..1e-8 relative (six orders of magnitude above measured error); data-set variants whose unmasked view is wrong (C05's subject) are skipped and counted",
+    },
+    "C05": {
+        "engine": "histsim",
+        "technique": "deterministic simulation: seeded operation histories over several live DataSets and caller-owned dicts (restart through dict/JSON, refused operations, aliasing) against a list-of-triples reference model, ddmin",
+        "text": "Seeded histories of up to 25 operations over up to 4 live data sets (ascending/descending construction with masks, set_mask, filters, subtraction, JSON restart, repeated import of one exported dict, import without optional keys, duplicate, average, refused constructions) are executed on the real objects and on a list-of-triples model; after every step every view of every live data set and every caller-owned mask/export is compared with the model.",
+        "design_ref": "DESIGN.md 3, 4 (C05)",
+        "note": "model semantics of set_mask (update / {} clears / out-of-range ignored) follow the code's documented behaviour",
+    },
+    "C14": {
+        "engine": "histsim",
+        "technique": "deterministic simulation: seeded operation histories over several element instances sharing class-level state (refused updates, copy/deepcopy/text restart, class-default changes, caller aliasing) against a dictionary reference model, ddmin",
+        "text": "Seeded histories of up to 30 operations over 1-4 instances drawn from all 23 registered element classes (setters in keyword and positional form with valid and invalid arguments, resets, copies, deep copies, copies of circuits holding the element, to_string->parse_cdc restart, class-level set_default_values, edits inside container sub-circuits, caller scribbling on returned dicts) against a dictionary model; every live instance and every class default is compared after every step.",
+        "design_ref": "DESIGN.md 3, 4 (C14)",
+        "note": "refused multi-key calls: non-failing keys may be applied or not; copies outside the statement's precondition may fail or come back clamped; refused text restarts are logged, not judged",
+    },
+    "C15": {
+        "engine": "histsim",
+        "technique": "deterministic simulation: seeded operation histories over the process-global registry in fork-isolated children (refused registrations, reset as restart) against a registry reference model, ddmin",
+        "text": "Seeded histories of up to 12 operations (register valid/inconsistent/duplicate/invalid/built-in-class definitions with and without the private flag, remove, reset in all flag combinations, set/reset class defaults, parse_cdc of registered/removed/prefix symbols), each in a freshly forked child of a pristine parent; registry views, built-in public faces and the parser's view are compared with the model after every step.",
+        "design_ref": "DESIGN.md 3, 4 (C15)",
+        "note": "two candidate symbols per run and register/reset-heavy weights with a flipped-private echo (measured to be needed to reach the private-mark leak)",
+    },
+})
+
 NOT_APPLICABLE = {
     "C01": "pure synchronous function of (circuit topology, parameter values, frequencies): no schedule, clock, fault or history for a simulator to own",
     "C02": "numeric vs symbolic impedance of an element is a pure function of (class, parameters, f)",
